@@ -107,7 +107,9 @@ def pair_case(ctx, i):
         ctx.count('mating_rejected_unit_noise')
         return
     beta = SI.si(beta_q) if helical else 0.0
-    for k, g in enumerate(gears):
+    # every gear is evaluated twice with different torques on the same object (a second evaluation must not reuse anything
+    # of the first one)
+    for k, g in enumerate(gears + gears):
         role = 'master' if g.mating_role is mo().MatingMaster else 'slave'
         Tl, Td = set_torques(g, rng, 5.0)
         Tref = Tl if role == 'master' else Td
